@@ -40,7 +40,7 @@ def circuits(env, tier="quick"):
         {"name": "u3_lossy", "n": 3, "ops": [("uni", 3, 0, False), ("loss", 1, g), ("bs", 0, 1, env.R[1], "Rx", 0)],
          "input": (1, 1, 0)},
         {"name": "u2_bunch", "n": 2, "ops": [("uni", 2, 0, False)], "input": (2, 0)},
-        {"name": "u3_herald_io", "n": 3, "ops": [("uni", 3, 0, False), ("her", 1, 0, 2)], "input": (0, 1)},
+        {"name": "u3_herald_io", "n": 3, "ops": [("uni", 3, 0, False), ("her", 1, 0, 2, "np")], "input": (0, 1)},
         {"name": "sub_anc", "n": 2, "ops": [("add", "h3mid", 0, False), ("bs", 0, 1, env.R2, "H", 0)], "input": (1, 0)},
     ]
 
@@ -384,6 +384,17 @@ def check_seeds(rc, env, acc):
                                                             "method": label, "N": N, "seed_value": sd,
                                                             "seed": env.seed}, {"first": a, "second": b})
                 seen.append(a)
+            # the same seed given as a numpy integer is the same seed
+            try:
+                acc.tick("executions"); acc.tick("seed_runs")
+                if result_key(fn(N, np.int64(7))) != seen[2]:
+                    acc.violation("seed_not_reproducible", {"recipe": rc["name"], "n": rc["n"], "ops": rc["ops"],
+                                                            "method": label, "N": N, "seed_value": "np.int64(7)",
+                                                            "seed": env.seed}, None)
+            except Exception as e:  # noqa: BLE001
+                acc.violation("integer_seed_refused", {"recipe": rc["name"], "n": rc["n"], "ops": rc["ops"], "method": label,
+                                                       "N": N, "seed_value": "np.int64(7)", "seed": env.seed},
+                              {"error": repr(e)})
             if N == 50 and len(set(seen)) == 1:
                 acc.tick("seeds_all_identical_N50")      # non-vacuity indicator, not a property clause
 
